@@ -63,7 +63,7 @@ func CheckC03(run *Run) {
 	run.Proof = CheckProofs("C03")
 	run.Prepare()
 	reqs := RouteCatalogue()
-	reqs = append(reqs, SharedRouteRequest(), DoubleSlashRequest(), NoSlashRequest())
+	reqs = append(reqs, SharedRouteRequest(), DoubleSlashRequest(), NoSlashRequest(), RootPathRequest())
 	n := 8
 	if run.Tier == "thorough" {
 		n = 400
